@@ -455,7 +455,7 @@ def outer_loop_header(B, block):
 # value-changing calls that provenance (mir.Body.origins) deliberately looks through; identity rules must exclude them
 LOSSY = ("to_lowercase", "to_uppercase", "to_ascii_lowercase", "to_ascii_uppercase", "trim", "trim_start", "trim_end", "trim_matches",
          "unwrap_or", "unwrap_or_default", "unwrap_or_else", "ok", "first", "last", "next", "to_string_lossy", "take", "skip", "filter",
-         "filter_map", "find", "rev", "get_mut", "into_boxed_str")
+         "filter_map", "find", "rev", "get_mut", "into_boxed_str", "from_utf8_lossy", "from_utf8_unchecked", "to_ascii_lowercase", "replace", "replacen")
 
 
 def lossy_via(B, o):
